@@ -689,13 +689,17 @@ class Streams:
                 else: self.fail(ob, 'container-wrong-content', 'PointsSequence expression evaluates to the wrong sequence', dict(op='pointsseq', n=len(want), shape=type(s).__name__))
 
     def real_only(self):
-        self.known_tensor4d()
-        self.known_chain_take()
-        self.known_locate_empty()
-        self.interning()
-        self.findex_fcoords()
-        self.interface_sides()
-        self.locate()
+        import traceback
+        for f in (self.known_tensor4d, self.known_chain_take, self.known_locate_empty, self.interning, self.findex_fcoords, self.interface_sides, self.locate):
+            try:
+                f()
+            except Exception as e:
+                # the real code raised where the stream did not expect any exception: an outcome, not a harness crash
+                tb = traceback.extract_tb(e.__traceback__)
+                where = '%s:%d' % (tb[-1].filename.split('/')[-1], tb[-1].lineno) if tb else '?'
+                self.tick('explore:' + f.__name__)
+                self.fail('explore:' + f.__name__, 'stream-raises:' + f.__name__, 'unexpected %s in stream %s at %s: %s' % (type(e).__name__, f.__name__, where, str(e)[:150]),
+                          dict(op=f.__name__, traceback=traceback.format_exc()[-2000:]))
 
     def known_locate_empty(self):
         """locate with skip_missing=True and no target inside the domain"""
